@@ -1070,6 +1070,14 @@ static int write_text(void *context, UChar *text, int32_t length, int fold, int 
         for (tok = text, next_tok = tok; tok != NULL; tok = next_tok) {
             int protect = CIF_FALSE;
 
+            /* a value that ends with a newline has a final, empty line; it must be written, too */
+            if ((*next_tok == 0) && (tok != text)) {
+                if (u_fprintf(CONTEXT_UFILE(context), "\n%s", prefix_text) != (1 + prefix_chars)) {
+                    return CIF_ERROR;
+                }
+                break;
+            }
+
             /* special handling is required for empty lines */
             if (*next_tok == UCHAR_NL) {
                 if (u_fputc(UCHAR_NL, CONTEXT_UFILE(context)) != UCHAR_NL) {
